@@ -31,7 +31,7 @@ register(
         "GtModel.EditMatrix.solve_zero",
         "GtModel.EditMatrix.solve_path",
     ],
-    streams=["editmatrix", "strscript"],
+    streams=["editmatrix", "strscript", "editmatrix_O", "strscript_O"],
     assumptions=[
         "strings are sequences of characters compared with ==; StringNode objects are str (bytes are not modelled)",
         "every matrix cell is fully tightened (definitive) before _best_match reads it, so the script depends on "
